@@ -75,7 +75,10 @@ class Builder:
         return self.draw(st.integers(0, 99)) < pct
 
     def pick(self, seq):
-        return self.draw(st.sampled_from(list(seq)))
+        # draw an index, never the objects themselves: the repr of a strategy feeds Hypothesis' labels, and a
+        # repr containing memory addresses would make generation differ from process to process
+        seq = list(seq)
+        return seq[self.draw(st.sampled_from(range(len(seq))))]
 
     def weighted(self, options):
         """options: list of (weight, value) -> value"""
